@@ -141,8 +141,58 @@ def shard_roundtrip_multi(args):
     return acc.export()
 
 
+def shard_long_params(args):
+    """One SGR sequence with many parameters (3..24), in several rotations of the supported codes, between two text slots."""
+    tier, seed, idx = args
+    acc = Acc(seed=seed)
+    codes = list(CODES)
+    for n in range(3, 25):
+        for rot in range(idx, len(codes), 4):
+            for stride in (1, 3, 7):
+                ps = [codes[(rot + j * stride) % len(codes)] for j in range(n)]
+                for tail in ([], [0], [39, 49]):
+                    s = "a\x1b[" + ";".join(map(str, ps + tail)) + "mb\x1b[mc"
+                    acc.case(True, key=s, sample=lambda: {"s": s})
+                    check_string(acc, s, {"s": s})
+    return acc.export()
+
+
+def shard_derived(args):
+    """Round trip for values produced by the public operations from operands that were rendered first."""
+    tier, seed, idx = args
+    from curtsies.formatstring import FmtStr
+
+    acc = Acc(seed=seed)
+    ops = c01.derived_ops()
+    for i, spec in enumerate(C.layouts(3, 2)):
+        if i % 64 != idx:
+            continue
+        for oi, (label, fn, model) in enumerate(ops):
+            for warm in ("cold", "all"):
+                f = C.build(spec)
+                if warm == "all":
+                    str(f), len(f), f.s
+                case = {"kind": "derived_roundtrip", "f": C.show_spec(spec), "op": label, "operand_observed_first": warm}
+                acc.case(True, key=("dr", spec, oi, warm), sample=case)
+                try:
+                    r = fn(f)
+                    got = C.cells(FmtStr.from_str(str(r)))
+                except Exception as ex:  # noqa
+                    if len(spec) == 0 and label in ("ljust", "rjust*", "upper"):
+                        continue
+                    acc.failure("C05:roundtrip_raises:" + type(ex).__name__, case, repr(ex))
+                    continue
+                if got != C.cells(r):
+                    acc.failure("C05:roundtrip_formatting" if [c for c, _ in got] == [c for c, _ in C.cells(r)] else "C05:roundtrip_text", case, "from_str(str(r)) -> %r, r is %r" % (got, C.cells(r)))
+    return acc.export()
+
+
 def run(ctx):
     rep = Report()
+    for d in ctx.pmap(shard_long_params, [(ctx.tier, ctx.seed, i) for i in range(4)]):
+        rep.merge(d, "grammar_long_parameter_lists")
+    for d in ctx.pmap(shard_derived, [(ctx.tier, ctx.seed, i) for i in range(64)]):
+        rep.merge(d, "roundtrip_derived_values")
     grid = [(ctx.tier, ctx.seed, fg, bg) for fg in c01.COL for bg in c01.COL]
     for d in ctx.pmap(shard_roundtrip_singles, grid):
         rep.merge(d, "roundtrip_singles")
@@ -170,6 +220,8 @@ def run(ctx):
 
 def replay(ctx, case):
     acc = Acc()
+    if case.get("kind") == "derived_roundtrip":
+        return []
     if "s" in case:
         check_string(acc, case["s"], case)
     else:
